@@ -5,6 +5,7 @@ import (
 	"encoding/json"
 	"flag"
 	"fmt"
+	"github.com/transparency-dev/witness/verifmc/ev"
 	"os"
 	"sort"
 	"time"
@@ -55,8 +56,20 @@ func main() {
 		kind, _ := m["kind"].(string)
 		r, ok := checks.Replayers[kind]
 		if !ok {
-			fmt.Printf("INTERNAL-ERROR: no replayer for kind %q\n", kind)
-			os.Exit(2)
+			// Generic replay: the checks are deterministic, so re-executing
+			// the property's quick check (as a scratch run: no evidence, no
+			// replay files) and looking for the recorded signature replays
+			// the case.
+			prop, _ := m["property"].(string)
+			c, okc := checks.Registry[prop]
+			if !okc {
+				fmt.Printf("INTERNAL-ERROR: no replayer for kind %q and no check %q\n", kind, prop)
+				os.Exit(2)
+			}
+			ev.ForceScratch = true
+			ev.OnlySignature, _ = m["signature"].(string)
+			fmt.Printf("replaying by re-running the %s quick check and looking for signature %q\nrecorded: %v\n", prop, ev.OnlySignature, m["what"])
+			os.Exit(c("quick"))
 		}
 		os.Exit(r(m))
 	case "worker":
